@@ -39,9 +39,9 @@ Definition is_blob (t : dtype) : bool := match t with TBlob => true | _ => false
 (* length prefixes as the three readers implement them *)
 Definition plen_blob (bs : bytes) : result (N * bytes) :=
   '(n, r) <- get_u 1 bs ;; if n =? 255 then get_u 3 r else Ok (n, r).
+(* STRING: the same packed length as BLOB (0xff, then 24 bits little-endian) - since the repair recorded as fixed: C03-a *)
 Definition plen_string (bs : bytes) : result (N * bytes) :=
-  '(n, r) <- get_u 1 bs ;;
-  if n =? 255 then ('(m, r1) <- get_u 2 r ;; '(_, r2) <- need 1 r1 ;; Ok (m, r2)) else Ok (n, r).
+  '(n, r) <- get_u 1 bs ;; if n =? 255 then get_u 3 r else Ok (n, r).
 Definition plen_py (bs : bytes) : result (N * bytes) := get_u 1 bs.
 
 Definition text_or_bytes (b : bytes) : value := if utf8_valid b then VStr b else VBytes b.
